@@ -1492,6 +1492,16 @@ SPECS = [
     dict(name="combine_area_extents_vertical", file="pyresample/geometry.py", func="combine_area_extents_vertical", raises=True,
          params=[("area1.area_extent", tup(RAT, RAT, RAT, RAT)), ("area2.area_extent", tup(RAT, RAT, RAT, RAT))],
          returns=tup(RAT, RAT, RAT, RAT), select=_whole, owners=["C10"]),
+    dict(name="concatenate_area_defs", file="pyresample/geometry.py", func="concatenate_area_defs", mode="fragment", raises=True,
+         params=[("axis", INT), ("crs_eq", BOOL), ("area1.width", INT), ("area2.width", INT), ("area1.height", INT), ("area2.height", INT),
+                 ("area1.area_extent", tup(RAT, RAT, RAT, RAT)), ("area2.area_extent", tup(RAT, RAT, RAT, RAT))],
+         expr_params={"area1.crs == area2.crs": "crs_eq"},
+         inline={"combine_area_extents_vertical": {"lean": "combine_area_extents_vertical", "implicit": ["area1.area_extent", "area2.area_extent"],
+                                                   "drop_args": 2, "args": [], "returns": tup(RAT, RAT, RAT, RAT), "partial": True}},
+         outputs=["x_size", "y_size", "area_extent"],
+         output_types={"x_size": INT, "y_size": INT, "area_extent": tup(RAT, RAT, RAT, RAT)}, ignore_return_value=True, select=_whole,
+         post_guard=["return AreaDefinition(area1.area_id, area1.description, area1.proj_id, area1.crs, x_size, y_size, area_extent)"],
+         owners=["C10"]),
     # ---- C16 -----------------------------------------------------------------------------------
     dict(name="bbox_counts", file="pyresample/geometry.py", func="BaseDefinition._get_bbox_slices", mode="fragment",
          params=[("self.shape", tup(INT, INT)), ("vertices_per_side", opt(INT))],
